@@ -141,9 +141,15 @@ SECTIONS = [("~Version", "Version"), ("~Well", "Well"), ("~Parameter", "Paramete
 MNEMS = ["XVAL", "API", "UWI", "api", "Uwi", "aPi"]
 
 
+WELL_12_VALUE_FIRST = ("STRT", "STOP", "STEP", "NULL", "strt", "stop", "step", "null")
+
+
 def file_for(sect_title, mnem, value, version):
     v = "~Version\nVERS. %s : v\nWRAP. NO : w\n" % version
     body = "%s.   %s  : descr text\n" % (mnem, value)
+    if sect_title == "~Well" and version == "1.2" and mnem not in WELL_12_VALUE_FIRST:
+        # a LAS 1.2 ~Well line carries the value AFTER the colon: `UWI.  UNIQUE WELL ID : 007`
+        body = "%s.   descr text  : %s\n" % (mnem, value)
     if sect_title == "~Version":
         txt = v + body
     else:
@@ -169,17 +175,16 @@ def oracle_file(sect, mnem, value, version):
         return "read raised %r" % (e,)
     item = las.sections[key][mnem]
     got = classify(item.value)
-    if str(got[1]) == "" and value != "":
-        return None
-    # value/descr swap for 1.2 ~Well non-STRT items: value field is the description
-    if key == "Well" and version == "1.2":
-        return None
+    # (a value that comes back EMPTY is a difference like any other; 1.2 ~Well lines carry the value in the description slot,
+    # see file_for, and are judged like every other line)
+    if item.descr != "descr text":
+        return "section %s item %s (VERS %s): description came back as %r" % (key, mnem, version, item.descr)
     if mnem.upper() in ("API", "UWI") and key != "Parameter":
         exp = ("str", value)
     else:
         exp = expected_by_statement(value)
     if not same(got, exp):
-        return "section %s item %s value %r -> %r, statement expects %r" % (key, mnem, value, got, exp)
+        return "section %s item %s (VERS %s) value %r -> %r, statement expects %r" % (key, mnem, version, value, got, exp)
     cv = las.curves[0].value
     if not isinstance(cv, str) or cv != value:
         return "~Curves value %r came back as %r" % (value, cv)
@@ -262,11 +267,18 @@ def run(ctx):
     rng.shuffle(file_vals)
     file_vals = ["15_9", "1_0.5", "007", "0012345", "12.5", "1e5", "-999.25", "5,5"] + file_vals[: (3000 if ctx.thorough else 250)]
     file_cases, file_meta = [], []
-    for v in file_vals:
-        sect = rng.choice(SECTIONS)
-        mn = rng.choice(MNEMS)
-        ver = rng.choice(["1.2", "2.0"])
+    # forced combinations: LAS 1.2 ~Well lines (value after the colon) for every mnemonic kind, then the random stream
+    forced = [(SECTIONS[1], mn, v, "1.2") for mn in MNEMS for v in ("007", "0012345", "15_9", "12.5", "5,5", "1e5", "0", "-0", "+5")]
+    n_well12 = 0
+    for k, v in enumerate([f[2] for f in forced] + file_vals):
+        if k < len(forced):
+            sect, mn, v, ver = forced[k]
+        else:
+            sect = rng.choice(SECTIONS)
+            mn = rng.choice(MNEMS)
+            ver = rng.choice(["1.2", "2.0"])
         n_file += 1
+        n_well12 += sect[1] == "Well" and ver == "1.2"
         bad = oracle_file(sect, mn, v, ver)
         if bad:
             res.oracle_violations.append({"payload": {"kind": "file", "sect": list(sect), "mnem": mn, "value": v, "version": ver},
@@ -294,9 +306,11 @@ def run(ctx):
     res.rule = ("strings over {digits,sign,'.',',',e,E,_,blank,letters,/,:} exhaustively up to length %d, "
                 "random near-literals up to length 24, a malformed stream and a corpus; non-trivial = distinct strings "
                 "that contain a digit or are literals; file-level cases place values in ~V/~W/~P/custom items named "
-                "XVAL/API/UWI (any case) and in ~Curves" % (4 if ctx.thorough else 3))
+                "XVAL/API/UWI (any case) and in ~Curves; LAS 1.2 ~Well lines carry the value after the colon (UWI. DESCR : 007) and are "
+                "judged like every other line" % (4 if ctx.thorough else 3))
     res.samples = strings[:3] + strings[200:203] + strings[-3:]
     hist["file_level"] = n_file
+    hist["file_level_well_1.2_value_after_colon"] = n_well12
     res.histogram = hist
     return res
 
